@@ -200,9 +200,11 @@ class Prog(object):
         taint_before = taint_after = []
         if self.taint:
             kind, star, where = self.taint
-            st = self.taint_stmt(kind, star)
+            st = [] if where == 'comp_iter' else self.taint_stmt(kind, star)
             if where == 'before':
                 taint_before = st
+            elif where == 'comp_iter':
+                pass                 # rendered inside the comprehension, see below
             else:
                 taint_after = st
         body += taint_before
@@ -236,6 +238,25 @@ class Prog(object):
             body += ['with contextlib.nullcontext():', '    %s = %s' % (res, e)]
             body += taint_after
             taint_after = []
+            body.append('return ' + res)
+        elif ctx == 'comprehension' and self.taint and self.taint[2] == 'comp_iter':
+            # the taint sits in the comprehension's iterable (or is its loop target): it runs before
+            # the element expression, although the element comes first in the ast's field order
+            kind, star, _ = self.taint
+            name = self.va_name if star == 'args' else self.vk_name
+            if kind == 'mutate_method':
+                it = '[%s.count(0)]' % name if star == 'args' else "[%s.pop('zz_', None)]" % name
+                body.append('%s = [%s for it_ in %s][0]' % (res, e, it))
+            elif kind == 'pass_on':
+                body.append('%s = [%s for it_ in [decoy(%s)]][0]' % (res, e, name))
+            elif kind == 'rebind':
+                # (an assignment expression is not allowed in the iterable: in the condition)
+                body.append('%s = [%s for it_ in range(1) if (%s := %s(%s)) is not None][0]' % (
+                    res, e, name, 'tuple' if star == 'args' else 'dict', name))
+            elif kind == 'shadow':
+                body.append('%s = [%s for %s in [%s]][0]' % (res, e, name, '()' if star == 'args' else '{}'))
+            else:
+                raise ValueError(kind)
             body.append('return ' + res)
         elif ctx == 'comprehension':
             body.append('%s = [%s for it_ in range(1)][0]' % (res, e))
@@ -506,6 +527,10 @@ def gen_programs(rng, count, tainted=False, contexts=None, routes=None, valid_on
             where = rng.choice(['before', 'before', 'after'])
             if kind == 'delete' and where == 'before':
                 where = 'after'          # a deleted name cannot be forwarded at run time
+            if p.context == 'comprehension' and rng.random() < 0.6:
+                # inside the comprehension's for clause: evaluated before the element's call
+                kind = rng.choice(['mutate_method', 'pass_on', 'rebind', 'shadow'])
+                where = 'comp_iter'
             if kind == 'inline':
                 c0 = p.calls[0]
                 if not (len(p.calls) == 1 and has_vk and c0.vk and (c0.n or c0.names) and not c0.partial
